@@ -682,6 +682,13 @@ class ModGen(object):
         if name in sc.nonlocal_decl or name in sc.params:
             self.uid += 1
             name = 'fn%d' % self.uid
+        if self.guarded:
+            # a name defined twice would be called with the arguments of the older signature (keyword for what is now positional-only)
+            self.defnames = getattr(self, 'defnames', set())
+            if name in self.defnames:
+                self.uid += 1
+                name = '%s_%d' % (name, self.uid)
+            self.defnames.add(name)
         is_async = self.chance(0.08)
         is_gen = self.chance(0.12)
         fsc = Scope('def', sc)
